@@ -290,17 +290,41 @@ fn replace_path_params_recursively<I: Borrow<syn::Ident>, P: Borrow<TypePath>>(
             let syn::GenericArgument::Type(ty) = arg else {
                 continue;
             };
-            let syn::Type::Path(path) = ty else {
-                continue;
-            };
+            replace_type_params_recursively(ty, params, settings);
+        }
+    }
+}
+
+/// Like [`replace_path_params_recursively`], but for any type: besides paths this also looks
+/// inside tuples, arrays, slices, references, pointers and parenthesized types, so that a
+/// substitute like `::my::Wrapper<(A, u8)>` or `::my::Wrapper<[A; 4]>` has its `A` replaced too.
+fn replace_type_params_recursively<I: Borrow<syn::Ident>, P: Borrow<TypePath>>(
+    ty: &mut syn::Type,
+    params: &Vec<(I, P)>,
+    settings: &TypeGeneratorSettings,
+) {
+    match ty {
+        syn::Type::Path(path) => {
             if let Some(ident) = get_ident_from_type_path(path) {
                 if let Some((_, replacement)) = params.iter().find(|(i, _)| ident == i.borrow()) {
                     *ty = replacement.borrow().to_syn_type(&settings.alloc_crate_path);
-                    continue;
+                    return;
                 }
             }
             replace_path_params_recursively(&mut path.path, params, settings);
         }
+        syn::Type::Tuple(tuple) => {
+            for elem in &mut tuple.elems {
+                replace_type_params_recursively(elem, params, settings);
+            }
+        }
+        syn::Type::Array(array) => replace_type_params_recursively(&mut array.elem, params, settings),
+        syn::Type::Slice(slice) => replace_type_params_recursively(&mut slice.elem, params, settings),
+        syn::Type::Reference(r) => replace_type_params_recursively(&mut r.elem, params, settings),
+        syn::Type::Ptr(ptr) => replace_type_params_recursively(&mut ptr.elem, params, settings),
+        syn::Type::Paren(paren) => replace_type_params_recursively(&mut paren.elem, params, settings),
+        syn::Type::Group(group) => replace_type_params_recursively(&mut group.elem, params, settings),
+        _ => {}
     }
 }
 
